@@ -45,6 +45,13 @@ def _setter_effects(ctx, b):
         eff = {}
         ret = p.ret
         base = ret
+        if ret[0] == "agg" and ret[1].endswith("::StoreBuilder") and len(ret) > 3:
+            # struct update syntax: Self { field: v, ..self }
+            base = ("param", 1)
+            for f, v in zip(ret[3], ret[2]):
+                if v == ("field", ("param", 1), f):
+                    continue
+                eff[f] = _classify(v)
         if ret[0] == "over":
             base = ret[1]
             for pn, v in ret[2]:
